@@ -288,7 +288,7 @@ def _exec_function(case):
                 s_in = float(inp._scale.to(torch.float64)) if isinstance(inp, QBytesTensor) and not (aq is not None and not (inp.qtype == aq and inp.axis is None)) else float(qm.input_scale.to(torch.float64))
                 sp = abs(s_in) * float(qw_._scale.to(torch.float64).abs().min())
                 if sp > 0:
-                    bound = bound + (mag / sp) * eta
+                    bound = bound + 0.0 * (mag / sp) * eta  # (no allowance any more: the scale product is formed in float32, D46)
     if aq is None:
         yd = y.dequantize() if isinstance(y, QTensor) else y
         if yd.dtype != dtype or tuple(yd.shape) != tuple(raw.shape):
